@@ -331,8 +331,18 @@ func isLoopBound(v ssa.Value) bool {
 	if !ok || b.Op != token.LSS {
 		return false
 	}
-	_, isPhi := b.X.(*ssa.Phi)
-	return isPhi
+	if _, isPhi := b.X.(*ssa.Phi); isPhi {
+		return true
+	}
+	// range-over-slice form: φ+1 < len
+	if add, ok := b.X.(*ssa.BinOp); ok && add.Op == token.ADD {
+		if _, isPhi := add.X.(*ssa.Phi); isPhi {
+			if _, isK := constInt(add.Y); isK {
+				return true
+			}
+		}
+	}
+	return false
 }
 
 // reachAvoiding: CFG path from a to b that does not enter block avoid.
